@@ -2435,6 +2435,12 @@ int32_t processFinished(ssl_t *ssl, flightEncode_t *msg)
         {
             /* Epoch is incremented and the sequence numbers are reset for
                this message */
+            if (ssl->largestEpoch[0] == 0xFF && ssl->largestEpoch[1] == 0xFF)
+            {
+                psTraceErrr("DTLS epochs exhausted\n");
+                clearFlightList(ssl);
+                return PS_LIMIT_FAIL; /* never wrap to a used epoch */
+            }
             incrTwoByte(ssl, ssl->epoch, 1);
             zeroSixByte(ssl->rsn);
         }
